@@ -28,9 +28,10 @@ C14Step(m, o) ==
        ELSE
          LET dst == IF pings = <<>> THEN NoId ELSE pings[1].dst
              base == IF stable THEN m.since ELSE [i \in act0 |-> 0]
-             since == [i \in act0 |-> IF i = dst THEN 0 ELSE base[i] + 1]
+             \* only rounds that did ping count (a round whose Ping cannot be encoded pings nobody)
+             since == IF pings = <<>> THEN base ELSE [i \in act0 |-> IF i = dst THEN 0 ELSE base[i] + 1]
              v == V((act0 # {} /\ o.res # "Err:Encode") => Len(pings) = 1, "probe-round-did-not-ping-exactly-one-member")
-                  \cup V(pings # <<>> => dst \in act0, "Ping-sent-to-a-member-that-is-not-active")
+                  \cup V(pings # <<>> => dst \in act1, "Ping-sent-to-a-member-that-is-not-active")
                   \cup V(pings # <<>> => Addr(dst) # Addr(o.pre.id), "Ping-sent-to-the-instance-itself")
                   \cup V(\A i \in act0 : since[i] <= 2 * n - 2, "active-member-not-pinged-within-2n-1-rounds")
          IN [since |-> IF Known(o.pre) = Known(o.post) THEN since ELSE [i \in act1 |-> 0], v |-> v]
